@@ -155,3 +155,64 @@ def json_edge_characters(i: int) -> bool:
     text = json.dumps({'a' + chr(92) + 'nb': 1, 'a' + chr(10) + 'b': 2, chr(92) + 'u0041': 3, 'A': 4})
     back = ev(T['x2j_keys'], t=text)
     return json.loads(back[0]) == json.loads(text)
+
+
+# --- added after round-3 seeded changes and defects: JSON texts with exponent numbers, nulls and EMPTY arrays/objects as members, with and
+#     without a static base URI (json-to-xml then adds xml:base to the root) ------------------------------------------------------------------
+
+import json as _json  # noqa: E402
+from elementpath.xpath_tokens import XPathMap as _XMap, XPathArray as _XArr  # noqa: E402
+JSON_TEXTS = ('1e20', '1e-10', '100', '1200', '0.5', '-2.50', '{"a":null}', '[null]', '{"a":[]}', '{"a":{}}', '[[]]', '"x"', 'true', 'null',
+              '[1,{"b":[null,false]}]', '{"a":[],"b":{"c":[],"d":[[]]}}', '[12345678901234567890]', '{"k":1e5,"l":[1.5e-7]}')
+P31B = P31.__class__(base_uri='http://example.com/base/')
+TB_ = {False: parse_all({'x2j': 'xml-to-json(json-to-xml($t))', 'pj': 'parse-json($t)', 'ser': 'serialize(parse-json($t), map{"method": "json"})'}),
+       True: parse_all({'x2j': 'xml-to-json(json-to-xml($t))', 'pj': 'parse-json($t)', 'ser': 'serialize(parse-json($t), map{"method": "json"})'}, parser=P31B)}
+
+
+def _py(v):
+    """XDM value -> Python JSON value"""
+    if isinstance(v, list):
+        if len(v) == 0:
+            return None
+        if len(v) == 1:
+            return _py(v[0])
+        return ('sequence', [_py(x) for x in v])
+    if isinstance(v, _XMap):
+        return {str(k): _py(x) for k, x in v.items()}
+    if isinstance(v, _XArr):
+        return [_py(x) for x in v.items()]
+    if isinstance(v, bool) or v is None or isinstance(v, str):
+        return v
+    return float(v)
+
+
+def _norm(j):
+    if isinstance(j, dict):
+        return {k: _norm(x) for k, x in j.items()}
+    if isinstance(j, list):
+        return [_norm(x) for x in j]
+    if isinstance(j, (int, float)) and not isinstance(j, bool):
+        return float(j)
+    return j
+
+
+@ob(budget=200, bound='JSON text from a table of 18 (exponent numbers, nulls, empty arrays/objects as members, nested shapes; index chosen by the '
+                      'solver) x parser with / without a static base URI: xml-to-json(json-to-xml(t)), parse-json(t) and '
+                      'serialize(parse-json(t), json) all denote the value an independent JSON parser reads from t',
+    funcs=['elementpath/xpath31/_xpath31_functions.py:evaluate__xml_to_json', 'elementpath/xpath31/_xpath31_functions.py:evaluate__json_to_xml',
+           'elementpath/xpath31/_xpath31_functions.py:evaluate__parse_json', 'elementpath/serialization.py:serialize_to_json'])
+def json_texts_roundtrip(ti: int, base: bool) -> bool:
+    """
+    pre: 0 <= ti <= 17
+    post: _
+    """
+    t = JSON_TEXTS[[k for k in range(18) if k == ti][0]]
+    toks = TB_[True if base else False]
+    want = _norm(_json.loads(t))
+    back = ev(toks['x2j'], t=t)
+    if len(back) != 1 or _norm(_json.loads(back[0])) != want:
+        return False
+    if _norm(_py(ev(toks['pj'], t=t))) != want:
+        return False
+    ser = ev(toks['ser'], t=t)
+    return len(ser) == 1 and _norm(_json.loads(ser[0])) == want
